@@ -40,6 +40,20 @@ impl HolePunch {
 
     #[cfg(target_os = "linux")]
     pub fn punch(file: &File, start: usize, length: usize) -> Result<()> {
+        #[cfg(feature = "verif")]
+        if let Err(err) = crate::verif::io(
+            crate::verif::FileKind::Data,
+            crate::verif::IoKind::Punch,
+            start,
+            length,
+            &[],
+        ) {
+            return Err(Error::HolePunchFailed {
+                start,
+                len: length,
+                source: err,
+            });
+        }
         let result = unsafe {
             libc::fallocate(
                 file.as_raw_fd(),
